@@ -12,7 +12,7 @@
 (*               formulas (C07)                                            *)
 (*   BallSound : every trace within |rho| of W has the same verdict (C07)  *)
 (***************************************************************************)
-EXTENDS Sem
+EXTENDS Dense
 
 CONSTANTS Pairs, Forms, Vars, Vals, MaxLen, S
 
@@ -71,6 +71,16 @@ RhoPt(p, X, N, t) ==
 PointwiseEq == LET N == LenOf(W) IN N > 0 =>
    \A p \in Forms : LET sg == Sig(p, W, N, S, StdMode) IN
                     \A t \in 1..N : LET r == RhoPt(p, W, N, t) IN r = Undef \/ sg[t] = Undef \/ sg[t] = r
+
+\* C19: on step signals that change only at the sampling instants (period 1) the dense-time robustness at
+\* sampling instant k equals the discrete-time robustness at sample k, as long as k + horizon < |w|.
+\* The cells of the stretched signal are the samples themselves (the last cell is the held tail).
+C19Frag(p) == ~HasOp(p, {"since", "until", "sinceT", "untilT", "prev", "sprev", "next", "snext", "rise", "fall",
+                         "ev", "alw", "precT"})
+DenseEqDiscrete == LET N == LenOf(W) IN N > 0 =>
+   \A p \in Forms : C19Frag(p) =>
+      LET d == Sig(p, W, N, S, StdMode) c == SigC(p, W, N, S, StdMode) h == Hor(p) IN
+      \A k \in 1..N : (k + h <= N) => (d[k] = Undef \/ c[k] = Undef \/ d[k] = c[k])
 
 \* C07, sign: strictly positive robustness implies satisfaction, strictly negative implies violation
 IffXorFree(p) == ~HasOp(p, {"iff", "xor"})
